@@ -2,7 +2,12 @@
    (`Alpaqa.Gen.C18.env`, `durCfg`) at `Float` on the op lines of `harness/c18.cpp`.
 
    set <top> <D|P> <n> (<pathHex> <val>)* <prefixHex> <k> <optHex>*k <m> (<strHex> <res>)*m
+       <f> (<nameHex> <contentHex> <rowTok>)*f
      -> "<status> <used,…|-> <n> <val>*n"
+
+   The file section is the file system of the `@file` form of `vec_from_file`: a listed file reads
+   as the token row `<rowTok>` = `row:<tokHex>,…` (first data row as `csv::read_row_std_vector`
+   tokenises it — an oracle here, property C17), any other path does not exist.
 
    The floating-point `from_chars` oracle is the table `<m> (<strHex> <res>)*` carried by the op
    line (`ok:<hex64>:<restLen>` | `inv` | `rng`); a string the model asks for that is not in
@@ -50,6 +55,12 @@ def hstr : P String := do
   let t ← tok
   match hexStr? t with | some s => pure s | none => failure
 
+def parseVecTok? (s : String) : Option (List Float) :=
+  match s.splitOn ":" with
+  | [_] => some []
+  | [_, xs] => (xs.splitOn ",").mapM (fun h => if h = "nan" then some (0.0/0.0) else parseF? h)
+  | _ => none
+
 def parseLeaf? (t : String) : Option (Leaf Float) :=
   match t.toList with
   | 'b' :: r => some (.b (r == ['1']))
@@ -59,13 +70,13 @@ def parseLeaf? (t : String) : Option (Leaf Float) :=
   | 'r' :: r =>
     let s := String.ofList r
     if s = "nan" then some (.r (0.0 / 0.0)) else (parseF? s).map .r
-  | 'v' :: r =>
-    let s := String.ofList r
-    match s.splitOn ":" with
-    | [_] => some (.v [])
-    | [_, xs] => (xs.splitOn ",").mapM (fun h => if h = "nan" then some (0.0/0.0) else parseF? h) |>.map .v
-    | _ => none
+  | 'v' :: r => (parseVecTok? (String.ofList r)).map .v
+  | 'o' :: 'n' :: [] => some (.o none)
+  | 'o' :: 'v' :: r => (parseVecTok? (String.ofList r)).map (fun xs => .o (some xs))
   | _ => none
+
+def fmtVec (xs : List Float) : String :=
+  if xs.isEmpty then "v0" else s!"v{xs.length}:" ++ String.intercalate "," (xs.map fmtF)
 
 def fmtLeaf : Option (Leaf Float) → String
   | none => "?"
@@ -74,8 +85,9 @@ def fmtLeaf : Option (Leaf Float) → String
   | some (.e v) => s!"e{v}"
   | some (.d v) => s!"d{wrap64 v}"
   | some (.r v) => "r" ++ fmtF v
-  | some (.v xs) =>
-    if xs.isEmpty then "v0" else s!"v{xs.length}:" ++ String.intercalate "," (xs.map fmtF)
+  | some (.v xs) => fmtVec xs
+  | some (.o none) => "on"
+  | some (.o (some xs)) => "o" ++ fmtVec xs
 
 def pathOf (s : String) : Path := if s = "" then [] else s.splitOn "."
 
@@ -100,6 +112,8 @@ def topKind (top : String) : Option Kind :=
     | "min" => some (.dur 60000000000)
     | "h" => some (.dur 3600000000000)
     | "vec" => some .vec
+    | "vff" => some (.vff (-1))
+    | "vff2" => some (.vff 2)
     | _ => none
 
 def parseRes? (s : Str) (t : String) : Option (NumRes Float) :=
@@ -112,10 +126,19 @@ def parseRes? (s : Str) (t : String) : Option (NumRes Float) :=
       pure (.ok v (s.drop (s.length - k)))
     | _ => none
 
+/-- `row:<tokHex>,<tokHex>…` (`row:` = no token; an empty token is `-`) -/
+def parseRow? (t : String) : Option (List Str) :=
+  if t.startsWith "row:" then
+    let body := (t.drop 4).toString
+    if body = "" then some []
+    else (body.splitOn ",").mapM (fun h => (hexStr? h).map String.toList)
+  else none
+
 def errName : Err → String
   | .invalidKey => "invalidKey" | .indexed => "indexed" | .badBool => "badBool"
   | .badEnum => "badEnum" | .numInvalid => "numInvalid" | .numRange => "numRange"
   | .numSuffix => "numSuffix" | .durValue => "durValue" | .durUnits => "durUnits"
+  | .fileOpen => "fileOpen" | .fileRead => "fileRead" | .badSize => "badSize"
   | .unsupported => "unsupported" | .fuel => "fuel"
 
 def rep {β} (n : Nat) (p : P β) : P (List β) :=
@@ -139,6 +162,10 @@ def c18Step (_ : Unit) (line : String) : Unit × String :=
         let orc ← rep m (do
           let s ← hstr; let t ← tok
           match parseRes? s.toList t with | some x => pure (s.toList, x) | none => failure)
+        let nf ← nat
+        let fls ← rep nf (do
+          let name ← hstr; let _content ← tok; let rt ← tok
+          match parseRow? rt with | some toks => pure (name.toList, toks) | none => failure)
         match topKind top with
         | none => pure "bad-op"
         | some kind =>
@@ -148,8 +175,12 @@ def c18Step (_ : Unit) (line : String) : Unit × String :=
             | some p => p.2
             | none => .ok (0.0 / 0.0) ("\x00oracle-miss".toList)
           let st0 : Store Float := fun q => (pre.find? (·.1 == q)).map (·.2)
+          let envF : Env := { Gen.C18.env with
+            files := fun path => match fls.find? (·.1 == path) with
+              | some p => .row p.2
+              | none => .missing }
           let (st, used, err) :=
-            setParams Gen.C18.env Gen.C18.durCfg oracle kind pfx.toList (opts.map String.toList) st0
+            setParams envF Gen.C18.durCfg oracle kind pfx.toList (opts.map String.toList) st0
           let status := match err with | none => "ok" | some e => "exc:" ++ errName e
           let usedS := if used.isEmpty then "-" else String.intercalate "," (used.map toString)
           let vals := pre.map fun (p, _) => fmtLeaf (st p)
